@@ -130,10 +130,45 @@ class ShardResult:
         self.wall = 0.0
 
 
+CASE_LIMIT_S = int(os.environ.get("PV_CASE_LIMIT_S", "300"))
+
+
+class _CaseTimeout(BaseException):
+    pass
+
+
+def _alarm(signum, frame):
+    raise _CaseTimeout()
+
+
+def _oracle_with_watchdog(sub, case):
+    """a single oracle evaluation that runs for minutes means the code under test (or the harness) loops;
+    that is reported as a harness error (inconclusive, exit 2) with the case saved - never as a violation"""
+    import signal
+    import threading
+
+    if threading.current_thread() is not threading.main_thread():
+        return sub.oracle(case)
+    old = signal.signal(signal.SIGALRM, _alarm)
+    signal.alarm(CASE_LIMIT_S)
+    try:
+        return sub.oracle(case)
+    except _CaseTimeout:
+        d = os.path.join(ROOT, "replays", "_timeouts")
+        os.makedirs(d, exist_ok=True)
+        path = os.path.join(d, f"{sub.name}-{hashlib.blake2b(json.dumps(case, sort_keys=True, default=str).encode(), digest_size=6).hexdigest()}.json")
+        with open(path, "w", encoding="utf-8") as f:
+            json.dump({"subcheck": sub.name, "case": case}, f, default=str)
+        raise HarnessError(f"{sub.name}: one case ran longer than {CASE_LIMIT_S}s (inconclusive); case saved to {path}") from None
+    finally:
+        signal.alarm(0)
+        signal.signal(signal.SIGALRM, old)
+
+
 def evaluate(sub, case, res, want_samples=3):
     """run the oracle on one case, recording instead of raising"""
     try:
-        r = sub.oracle(case)
+        r = _oracle_with_watchdog(sub, case)
     except Fail as f:
         bucket = f"{sub.name}|{f.clause}"
         ent = res.failures.get(bucket)
